@@ -89,6 +89,15 @@ func (c *queryCache) removeOrder(key string) {
 	}
 }
 
+// cacheKey normalises white space and ASCII letter case. It must not identify two
+// texts the parser tells apart, so only ASCII letters are folded: strings.ToLower
+// would also merge distinct non-ASCII letters (and every invalid byte) into one key.
 func cacheKey(query string) string {
-	return strings.ToLower(strings.Join(strings.Fields(query), " "))
+	key := []byte(strings.Join(strings.Fields(query), " "))
+	for i, c := range key {
+		if 'A' <= c && c <= 'Z' {
+			key[i] = c + ('a' - 'A')
+		}
+	}
+	return string(key)
 }
